@@ -44,6 +44,23 @@ type classIn struct {
 	Name       string `json:"name"`
 	Controller string `json:"controller"`
 	Params     bool   `json:"params,omitempty"`
+	Meta       int    `json:"meta,omitempty"` // 1 = annotated ingressclass.kubernetes.io/is-default-class: "true" (metadata only)
+}
+
+func mkClass(c classIn) *networking.IngressClass {
+	obj := c0809.IngressClass(c.Name, c.Controller, c.Params)
+	if c.Meta > 0 {
+		obj.Annotations = map[string]string{"ingressclass.kubernetes.io/is-default-class": "true"}
+	}
+	return obj
+}
+
+func coqIClass(c classIn, gen int) string {
+	params := 0
+	if c.Params {
+		params = 1
+	}
+	return fmt.Sprintf("{| k_name := %s; k_ctrl := %s; k_params := %s; k_meta := %s; k_gen := %s |}", hx.Str(c.Name), hx.Str(c.Controller), hx.N(params), hx.N(c.Meta), hx.N(gen))
 }
 
 type ingIn struct {
@@ -140,7 +157,7 @@ func mkIngress(in ingIn, gen int64) *networking.Ingress {
 func baseObjects(classes []classIn) []client.Object {
 	var objs []client.Object
 	for _, c := range classes {
-		objs = append(objs, c0809.IngressClass(c.Name, c.Controller, c.Params))
+		objs = append(objs, mkClass(c))
 	}
 	for _, ns := range []string{"a", "b"} {
 		svc, ep := c0809.Service(ns, "svc", 8080, "172.17.0.11", nil)
@@ -179,6 +196,7 @@ func coqIng(in ingIn, gen, rv int) string {
 type obsBatch struct {
 	Add, Upd, Del []string // "name@rv"
 	Links         []string
+	CLinks        []string // Links[IngressClass]
 	Notes         int
 }
 
@@ -291,6 +309,7 @@ func takeBatch(p *c0809.Pipeline, t *tracked) (obsBatch, *convtypes.ChangedObjec
 	ch := p.Watchers.Swap()
 	b := obsBatch{Add: t.ids(ch.IngressesAdd), Upd: t.ids(ch.IngressesUpd), Del: t.ids(ch.IngressesDel), Notes: notes}
 	b.Links = append(b.Links, ch.Links["Ingress"]...)
+	b.CLinks = append(b.CLinks, ch.Links["IngressClass"]...)
 	return b, ch
 }
 
@@ -336,7 +355,7 @@ type watchStep struct {
 }
 
 // client operations + reconciliations through the real watchers and converters
-func runWatch(in input) ([]watchStep, []string) {
+func runWatch(in input) (steps []watchStep, terms []string, terms2 []string) {
 	classes := append([]classIn{}, in.Classes...)
 	env := newEnv(in.Cfg, classes)
 	p := c0809.NewPipeline(env)
@@ -344,12 +363,11 @@ func runWatch(in input) ([]watchStep, []string) {
 	cur := map[string]*networking.Ingress{}
 	curIn := map[string]ingIn{}
 	rv := 1
-	var steps []watchStep
-	var terms []string
 	for _, op := range in.Ops {
 		switch op.Op {
 		case "put":
 			i := *op.Ing
+			terms2 = append(terms2, "IPut "+coqIng(i, 0, 0))
 			old := cur[i.Name]
 			if old == nil {
 				o := mkIngress(i, 1)
@@ -386,9 +404,11 @@ func runWatch(in input) ([]watchStep, []string) {
 				p.Watchers.FireDelete(old)
 			}
 			terms = append(terms, "ODelete "+hx.Str(op.Name))
+			terms2 = append(terms2, "IDelete "+hx.Str(op.Name))
 		case "putclass":
 			c := *op.Class
-			obj := c0809.IngressClass(c.Name, c.Controller, c.Params)
+			terms2 = append(terms2, "KPut "+coqIClass(c, 0))
+			obj := mkClass(c)
 			idx := -1
 			for k := range classes {
 				if classes[k].Name == c.Name {
@@ -405,12 +425,17 @@ func runWatch(in input) ([]watchStep, []string) {
 				old := stored.DeepCopy()
 				upd := obj.DeepCopy()
 				upd.ResourceVersion = stored.ResourceVersion
-				upd.Generation = stored.Generation + 1
+				// the API server increments metadata.generation when the spec changes
+				upd.Generation = stored.Generation
+				if classes[idx].Controller != c.Controller || classes[idx].Params != c.Params {
+					upd.Generation++
+				}
 				c0809.Must(env.Client.Update(env.Ctx, upd))
 				classes[idx] = c
 				p.Watchers.FireUpdate(old, upd)
 			}
 		case "delclass":
+			terms2 = append(terms2, "KDel "+hx.Str(op.Name))
 			for k := range classes {
 				if classes[k].Name == op.Name {
 					stored := &networking.IngressClass{}
@@ -447,9 +472,10 @@ func runWatch(in input) ([]watchStep, []string) {
 			sort.Strings(want)
 			steps = append(steps, watchStep{Batch: b, View: view, Want: want})
 			terms = append(terms, "OSwap")
+			terms2 = append(terms2, "ISwap []")
 		}
 	}
-	return steps, terms
+	return steps, terms, terms2
 }
 
 
@@ -594,6 +620,12 @@ func genWatch(rng *rand.Rand, classEvents bool, swapEvery int) input {
 		case classEvents && r < 3:
 			cs := append(allClasses(), classIn{Name: "late", Controller: oursCtrl}, classIn{Name: "hap", Controller: "example.com/changed"}, classIn{Name: "other", Controller: oursCtrl})
 			c := cs[rng.Intn(len(cs))]
+			if rng.Intn(4) == 0 {
+				c.Meta = 1
+			}
+			if rng.Intn(4) == 0 {
+				c.Params = !c.Params
+			}
 			if rng.Intn(3) == 0 {
 				in.Ops = append(in.Ops, opIn{Op: "delclass", Name: c.Name})
 			} else {
@@ -659,6 +691,30 @@ func corpus() []input {
 			{Op: "put", Ing: &ingIn{Name: "a/i1", Class: sp("other")}},
 			{Op: "swap"},
 			{Op: "putclass", Class: &classIn{Name: "other", Controller: oursCtrl}},
+			{Op: "swap"}}},
+		// removed (valid -> not valid), made valid again by an IngressClass event, then updated, in one batch
+		{Kind: "classev", Cfg: c0809.CfgIn{IngressClass: "haproxy", ControllerName: oursCtrl, Prec: true}, Classes: cls, Ops: []opIn{
+			{Op: "swap"},
+			{Op: "put", Ing: &ingIn{Name: "a/i1", Ann: sp("haproxy"), Class: sp("hap")}},
+			{Op: "swap"},
+			{Op: "put", Ing: &ingIn{Name: "a/i1", Ann: sp("haproxy"), Class: sp("other")}},
+			{Op: "putclass", Class: &classIn{Name: "other", Controller: oursCtrl}},
+			{Op: "put", Ing: &ingIn{Name: "a/i1", Ann: sp("haproxy"), Class: sp("hap")}},
+			{Op: "swap"}}},
+		// an IngressClass deleted and re-created (also with another controller in between)
+		{Kind: "classev", Cfg: cfg, Classes: cls, Ops: []opIn{
+			{Op: "swap"},
+			{Op: "put", Ing: &ingIn{Name: "a/i1", Class: sp("hap")}},
+			{Op: "put", Ing: &ingIn{Name: "a/i2", Ann: sp("haproxy")}},
+			{Op: "swap"},
+			{Op: "delclass", Name: "hap"},
+			{Op: "swap"},
+			{Op: "putclass", Class: &classIn{Name: "hap", Controller: "example.com/changed"}},
+			{Op: "swap"},
+			{Op: "putclass", Class: &classIn{Name: "hap", Controller: oursCtrl, Meta: 1}},
+			{Op: "swap"},
+			{Op: "putclass", Class: &classIn{Name: "hap", Controller: oursCtrl, Params: true}},
+			{Op: "putclass", Class: &classIn{Name: "hap", Controller: oursCtrl, Params: true, Meta: 1}},
 			{Op: "swap"}}},
 		// an IngressClass deleted under a configured Ingress
 		{Kind: "classev", Cfg: cfg, Classes: cls, Ops: []opIn{
@@ -798,7 +854,7 @@ func main() {
 				}, in)
 			}
 		case "watch", "classev":
-			steps, terms := runWatch(in)
+			steps, terms, terms2 := runWatch(in)
 			accepted := 0
 			for si, st := range steps {
 				accepted += st.Batch.Notes
@@ -834,6 +890,19 @@ func main() {
 				}
 				cw.Add(func(id int) string {
 					return fmt.Sprintf("CWatch %s %s %s %s %s", hx.N(id), coqCfg(in.Cfg), coqClasses(in.Classes), hx.List(terms), hx.List(obs))
+				}, in)
+			}
+			if !o.Search {
+				// the same history (IngressClass events included) on the model with a changing class table
+				var obs, ks []string
+				for _, st := range steps {
+					obs = append(obs, hx.Tuple(coqBatch(st.Batch), coqStrs(st.Batch.CLinks), coqStrs(st.View)))
+				}
+				for _, c := range in.Classes {
+					ks = append(ks, coqIClass(c, 1))
+				}
+				cw.Add(func(id int) string {
+					return fmt.Sprintf("CWatchIC %s %s %s %s %s", hx.N(id), coqCfg(in.Cfg), hx.List(ks), hx.List(terms2), hx.List(obs))
 				}, in)
 			}
 		}
